@@ -631,8 +631,14 @@ def _series_attr_case(rng, mode=None):
     elif mode == 'stored':
         # BitsStored differs: the inversion of bare stored / rescaled values runs over another range
         c['alloc'] = 16
-        top = max(abs(x) for fr in c['frames'] for x in fr)
-        need = max(2, top.bit_length() + (1 if c['signed'] else 0))
+        vlo = min(x for fr in c['frames'] for x in fr)
+        vhi = max(x for fr in c['frames'] for x in fr)
+        if c['signed']:
+            # two's complement: -2^(k-1) needs k bits (not k+1)
+            need = max(max(vhi, 0).bit_length(), (-vlo - 1).bit_length() if vlo < 0 else 0) + 1
+        else:
+            need = vhi.bit_length()
+        need = min(16, max(2, need))
         ss = [rng.choice([need, min(16, need + 1), 12, 16]) for _ in range(n)]
         ss = [max(need, min(16, v)) for v in ss]
         if len(set(ss)) < 2:
